@@ -171,7 +171,7 @@ func (vc *VC) mergeStates(states []*State, conds []string) *State {
 		}
 		small := len(vc.comps) <= 160
 		for k := range vc.comps {
-			if small || vc.prescanSet[k] || isActivationLocal(k) || k == "next" || k == "now" {
+			if small || vc.prescanSet[k] || isActivationLocal(k) || immutableComps[k] || k == "next" || k == "now" {
 				names[k] = true
 			}
 		}
